@@ -95,6 +95,22 @@ def nonce(ctx):
                     k, w = rng_source_ok(F, body, nw.args[0])
                     if not k:
                         ok, why = False, 'Nonce::new is fed by something other than the instance RNG: %s' % w
+            if ok:
+                # nothing writes the nonce between Nonce::new and Dem::encrypt
+                for nw in news:
+                    nl = nw.dest['l']
+                    holders = {nl}
+                    for bb in sorted(body.live_blocks()):
+                        for st in body.stmts(bb):
+                            rv = st['rv']
+                            if rv['k'] == 'use' and is_place(rv['a']) and op_local(rv['a']) in holders and not st['lhs']['p'] \
+                                    and not op_place(rv['a'])['p']:
+                                holders.add(st['lhs']['l'])
+                    for hl in holders:
+                        for d in body.defs().get(hl, []):
+                            if d.kind == 'mutarg' or (d.kind == 'assign' and (d.via is not None or d.lhs['p'])):
+                                ok, why = False, 'the nonce is overwritten after being drawn (%s, line %s)' % (
+                                    d.call.name if d.call else 'assignment', d.call.ln if d.call else body.stmts(d.b)[d.i]['ln'])
             ctx.check(ok, root, 'Dem::encrypt(nonce <- Nonce::new(instance rng))',
                       'the AEAD nonce at line %d is not freshly drawn from the instance RNG in this invocation (%s): two '
                       'ciphertexts under one key may share a nonce' % (e.ln, why), why, e.where())
